@@ -163,21 +163,27 @@ def run(ctx, progs):
                     ok = ok and one
                 ctx.ob("R20.1.eq", strip_generics(b.id), ok, b.where(), detail + "; both sides must carry the same byte-order tag")
                 allowed_field_readers.add(b.id)
-        # ---- no other hand-written body touches a wrapper's field
-        n_scanned = 0
+        # ---- any other hand-written body that reads a wrapper's field: the RAW (declared-order) value may only flow into the
+        # matching conversion (-> native), a byte view of itself (to_ne_bytes: the wire bytes), an ==/!= with another raw value of
+        # the same declared order, or a wrapper of the same declared order. Anything else (returned or compared as if it were
+        # native, arithmetic, unknown callee) mixes byte orders.
+        n_scanned = n_readers = 0
+        decl_of = {pth: w[0] for pth, w in wrappers.items()}
         for b in prog.bodies:
             if b.id in allowed_field_readers or b.j.get("impl_derived"):
                 continue
             n_scanned += 1
-            for pos, s in b.stmts():
-                if s["k"] != "assign":
-                    continue
-                for pl in _places(s):
-                    for e in pl.get("p", []):
-                        if isinstance(e, dict) and e.get("adt") in wrappers:
-                            ctx.ob("R20.1.field_access", f"{strip_generics(b.id)}", False, b.where(s["ln"]),
-                                   f"body accesses the raw field of {e['adt']} outside the conversion functions")
-        ctx.ob("R20.1.field_access.scan", "all other bodies", True, "", f"{n_scanned} bodies scanned, none touches a wrapper field")
+            bad = raw_flow(b, decl_of)
+            if bad is None:
+                continue
+            n_readers += 1
+            for ln, why in bad:
+                ctx.ob("R20.1.field_access", f"{strip_generics(b.id)}", False, b.where(ln),
+                       f"raw field of an endian wrapper used outside the conversion functions: {why}")
+            if not bad:
+                ctx.ob("R20.1.field_access", f"{strip_generics(b.id)}", True, b.where(),
+                       "raw field flows only into the matching conversion, a to_ne_bytes view, a same-order ==/!=, or a same-order wrapper")
+        ctx.ob("R20.1.field_access.scan", "all other bodies", True, "", f"{n_scanned} bodies scanned, {n_readers} read a wrapper field")
     ctx.config = "witness"
     witness.run(ctx, "c20")
     ctx.not_decided = ["numerical behaviour of to_le/to_be/from_le/from_be (trusted core intrinsics)"]
@@ -188,6 +194,88 @@ def run(ctx, progs):
         "no other body touches the field; repr(transparent) + compiler layout facts give size/alignment; ByteValued + derive set present. "
         "Modulo the trusted intrinsics this is the property for every value.",
         TRUSTED, "./check C20")
+
+
+def raw_flow(b, decl_of):
+    """None if the body never reads a wrapper field; else the list of (line, reason) for every use of the raw value that is not
+    one of the order-preserving ones. Flow-insensitive taint over MIR locals: taint = declared order of the wrapper read."""
+    taint = {}
+
+    def field_tag(pl):
+        for e in pl.get("p", []):
+            if isinstance(e, dict) and e.get("adt") in decl_of:
+                return decl_of[e["adt"]]
+        return None
+
+    def op_tag(o):
+        if not isinstance(o, dict) or "pl" not in o:
+            return None
+        pl = o["pl"]
+        t = field_tag(pl)
+        if t:
+            return t
+        if pl["l"] in taint and all(e == "*" for e in pl.get("p", [])):
+            return taint[pl["l"]]
+        return None
+
+    reads = False
+    for _pos, s in b.stmts():
+        if s["k"] == "assign" and any(field_tag(pl) for pl in _places(s)):
+            reads = True
+    for _pos, t in b.terms():
+        if t["k"] == "call" and any(field_tag(a["pl"]) for a in t.get("args", []) if "pl" in a):
+            reads = True
+    if not reads:
+        return None
+    bad = []
+    changed = True
+    rounds = 0
+    while changed and rounds < 8:
+        changed = False
+        rounds += 1
+        bad = []
+        for _pos, s in b.stmts():
+            if s["k"] != "assign":
+                continue
+            rv, lhs = s["rv"], s["lhs"]
+            k = rv.get("k")
+            ops = [rv.get(x) for x in ("op", "a", "b")] + list(rv.get("ops", []))
+            if "pl" in rv:
+                ops.append({"pl": rv["pl"]})
+            tags = [op_tag(o) for o in ops if o is not None]
+            tags = [t for t in tags if t]
+            if not tags:
+                continue
+            plain_lhs = not lhs.get("p")
+            if k in ("use", "ref") and plain_lhs and lhs["l"] != 0:
+                if taint.get(lhs["l"]) != tags[0]:
+                    taint[lhs["l"]] = tags[0]
+                    changed = True
+            elif k == "bin" and rv.get("op") in ("Eq", "Ne") and len(tags) == 2 and tags[0] == tags[1]:
+                pass
+            elif k == "agg" and rv.get("adt") in decl_of and decl_of[rv["adt"]] == tags[0]:
+                pass
+            elif k in ("use", "ref") and plain_lhs and lhs["l"] == 0:
+                bad.append((s.get("ln"), "the stored (declared-order) integer is returned as if it were a native value"))
+            else:
+                bad.append((s.get("ln"), f"`{k}` on the stored integer (byte orders mixed)"))
+        for _pos, t in b.terms():
+            if t["k"] != "call":
+                continue
+            tags = [op_tag(a) for a in t.get("args", [])]
+            if not any(tags):
+                continue
+            callee = t.get("callee") or ""
+            m = CONV.match(callee)
+            if m and tags[0]:
+                which = 'le' if m.group(2).endswith('le') else 'be'
+                if resolve_tag(('toggle', which, tags[0]), None) != 'native':
+                    bad.append((t.get("ln"), f"{callee.split('::')[-1]} applied to a {tags[0]}-ordered field"))
+            elif re.search(r"::to_ne_bytes$", callee):
+                pass
+            else:
+                bad.append((t.get("ln"), f"stored integer passed to {callee or 'an unresolved callee'}"))
+    return bad
 
 
 def _places(s):
